@@ -513,7 +513,7 @@ def run_unit(unit, tier, res):
     else:
         s, a, b = unit
         for off, term in enumerate(E.unit_terms(unit)):
-            if "PCinit" in term.src or "SOleaf" in term.src:
+            if "PCinit" in term.src or "SOleaf" in term.src or "PCfin" in term.src:
                 # a class hinted only by the STRING annotations of its __init__: its members are references written by the user, which the
                 # graph carries as plain (unflagged, non-revisit) reference nodes - the property speaks about the deferred nodes the graph
                 # itself creates for revisits; such classes are outside its universe here (they are judged behaviourally by C01/C03/C05/C07)
